@@ -118,7 +118,7 @@ func verifC12Nonce(b []byte) (int, error) {
 //verif:stub github.com/Query-farm/vgi-rpc-go/vgirpc.tokenZstd = verifC12TokenZstd
 //verif:stub (*github.com/klauspost/compress/zstd.Encoder).EncodeAll = verifC12EncodeAll
 //verif:stub (*github.com/klauspost/compress/zstd.Decoder).DecodeAll = verifC12DecodeAll
-//verif:bound one genuine cursor token minted by the real sealToken (gob payload of 2, 3 or 4 bytes, so the raw envelope is 44, 45 or 46 bytes = every base64 padding class) and presented to the real openToken after ONE edit of its base64 text: any position replaced by ANY other byte, ANY byte inserted at any position, one byte deleted at any position, the text cut to any shorter length, or ANY one byte appended; the real encoding/base64 decoder is executed symbolically; the AEAD is ideal (opens only byte-identical nonce, ciphertext and AAD under the same key), gob and the in-seal zstd are ideal codecs; bit-level XChaCha20-Poly1305 is outside the claim
+//verif:bound one genuine cursor token minted by the real sealToken (gob payload of 2, 3 or 4 bytes, so the raw envelope is 44, 45 or 46 bytes = every base64 padding class) and presented to the real openToken after ONE edit of its base64 text: any position replaced by ANY other byte, ANY byte inserted at any position, one byte deleted at any position, the text cut to any shorter length, or ANY one byte appended (thorough: also any two adjacent positions replaced by ANY two bytes); the real encoding/base64 decoder is executed symbolically; the AEAD is ideal (opens only byte-identical nonce, ciphertext and AAD under the same key), gob and the in-seal zstd are ideal codecs; bit-level XChaCha20-Poly1305 is outside the claim
 func verifH_C12_envelope_altered() {
 	// a position in [0,n): two small choices, so that table lookups by a symbolic
 	// byte (base64's decode and encode maps) stay solver terms instead of forks
@@ -137,7 +137,17 @@ func verifH_C12_envelope_altered() {
 	verifAssert(h.openToken(cursorTokenVersion, tok, aad, &back) == nil && back.CallID == id, "the genuine token opens to what was sealed")
 	verifC12Opens, verifC12Decode = 0, 0
 	var m []byte
-	switch verifChoice("edit", 5) {
+	edits := 5
+	if verifTier() == 1 {
+		edits = 6
+	}
+	switch verifChoice("edit", edits) {
+	case 5: // thorough: two adjacent bytes replaced (covers transpositions)
+		i := at(len(tok) - 1)
+		b0, b1 := verifNondetByte("byte"), verifNondetByte("byte2")
+		verifAssume(b0 != tok[i] || b1 != tok[i+1])
+		m = append([]byte(nil), tok...)
+		m[i], m[i+1] = b0, b1
 	case 0: // replace
 		i := at(len(tok))
 		b := verifNondetByte("byte")
